@@ -16,14 +16,14 @@ SHAPES = [
     ("usage anonymous", 3, False, None, ["en:x", "en:a", None], "ivar"),
     ("usage identified", 3, True, "ex:", ["en:x", "en:a", None], None),
 ]
-MENU = {"full": list(range(len(SHAPES))), "mid": [0, 2, 3, 4, 6, 7, 8], "small": [0, 2, 4, 7]}
+MENU = {"full": list(range(len(SHAPES))), "mid": [0, 2, 3, 4, 6, 7, 8], "small": [0, 2, 4, 7], "ea": [0, 2], "gu": [7, 9]}
 
 
-def _make(ctx, b, shape_idx):
+def _make(ctx, b, shape_idx, shared_id=None):
     name, k, identified, pfx, args, extra = SHAPES[shape_idx]
     ident = None
     if identified:
-        ident = pfx + ctx.str("id", 2, 1, "name")
+        ident = pfx + (shared_id if shared_id is not None else ctx.str("id", 2, 1, "name"))
     ex = None
     if extra == "ivar":
         ex = [("ex:k", ctx.bigint("v"))]
@@ -51,6 +51,13 @@ def unify(ctx):
     if n_bun:
         conts.append(src.bundle("en:bb"))
     first = ctx.params.get("first")
+    pattern = ctx.params.get("pattern")
+    if pattern:
+        # fixed shapes; the records marked A share one symbolic identifier, those marked B another (A == B decided by z3)
+        ids = {"A": ctx.str("idA", 2, 1, "name"), "B": ctx.str("idB", 2, 1, "name")}
+        for si, which in pattern:
+            _make(ctx, src, si, ids[which])
+        n_top = n_bun = 0
     for ci, (c, cnt) in enumerate(zip(conts, (n_top, n_bun))):
         for i in range(cnt):
             if first is not None and ci == 0 and i == 0:
@@ -60,6 +67,19 @@ def unify(ctx):
             else:
                 si = menu[ctx.choose("shape", len(menu))]
             _make(ctx, c, si)
+    _verify(ctx, S, src, "")
+    # second round: modify a record of the source in place (no record added) and unify again - the result must
+    # reflect the modification (no stale state kept between calls)
+    if ctx.params.get("second_round", (n_top + n_bun) <= 2):
+        recs = src.get_records()
+        if recs:
+            recs[0].add_attributes({"ex:late": ctx.bigint("late")})
+            _verify(ctx, S, src, "after an in-place modification and a second unified(): ")
+
+
+def _verify(ctx, S, src, tag):
+    from prov.model import ProvException
+
     before = S.doc_desc(src)
     ns_before = S.doc_ns_desc(src)
     # ---- specification on the descriptors: conflict iff same identifier, same kind, different value of a formal attr
@@ -84,19 +104,19 @@ def unify(ctx):
     after = S.doc_desc(src)
     ctx.check(S.doc_eq(before, after) and len(before["records"]) == len(after["records"]),
               "unified() changed the source document's content")
-    ctx.check(ns_before == S.doc_ns_desc(src), "unified() changed the source document's namespaces")
+    ctx.check(ns_before == S.doc_ns_desc(src), tag + "unified() changed the source document's namespaces")
     if conflict:
-        ctx.check(raised is not None, "two same-kind records with one identifier disagree on a formal attribute but "
+        ctx.check(raised is not None, tag + "two same-kind records with one identifier disagree on a formal attribute but "
                                       "unified() did not raise ProvException")
-        ctx.observe("raised", True)
+        ctx.observe("raised2" if tag else "raised", True)
         return
-    ctx.check(raised is None, "unified() raised ProvException although no two same-kind records with one identifier "
+    ctx.check(raised is None, tag + "unified() raised ProvException although no two same-kind records with one identifier "
                               "disagree on a formal attribute")
     res = S.doc_desc(u)
-    ctx.check(len(res["bundles"]) == len(before["bundles"]), "unified() lost or added a bundle")
+    ctx.check(len(res["bundles"]) == len(before["bundles"]), tag + "unified() lost or added a bundle")
     pairs = [(before["records"], res["records"])]
     for (bid, brecs), (rid, rrecs) in zip(before["bundles"], res["bundles"]):
-        ctx.check(bid == rid, "unified() changed a bundle identifier")
+        ctx.check(bid == rid, tag + "unified() changed a bundle identifier")
         pairs.append((brecs, rrecs))
     for srecs, urecs in pairs:
         # every identified source record has exactly one result record of its kind with its identifier, holding
@@ -105,24 +125,24 @@ def unify(ctx):
         for s in srecs:
             if s[1] is None:
                 hits = [j for j, r in enumerate(urecs) if r[1] is None and S.record_eq(r, s)]
-                ctx.check(len(hits) >= 1, "an anonymous record disappeared in unified()")
+                ctx.check(len(hits) >= 1, tag + "an anonymous record disappeared in unified()")
                 continue
             hits = [j for j, r in enumerate(urecs) if r[0] == s[0] and r[1] is not None and r[1] == s[1]]
-            ctx.check(len(hits) == 1, "identifier occurs in %d result records of kind %s (expected exactly 1)"
+            ctx.check(len(hits) == 1, tag + "identifier occurs in %d result records of kind %s (expected exactly 1)"
                       % (len(hits), s[0].rsplit("#")[-1]))
             r = urecs[hits[0]]
             for att in s[2]:
-                ctx.check(any(S.attr_eq(att, ra) for ra in r[2]), "an attribute value was lost in the merged record")
+                ctx.check(any(S.attr_eq(att, ra) for ra in r[2]), tag + "an attribute value was lost in the merged record")
             positions.append(hits[0])
         # nothing invented: every result record / attribute comes from a source record of that identifier and kind
         n_anon_s = len([s for s in srecs if s[1] is None])
         n_anon_u = len([r for r in urecs if r[1] is None])
-        ctx.check(n_anon_s == n_anon_u, "number of anonymous records changed")
+        ctx.check(n_anon_s == n_anon_u, tag + "number of anonymous records changed")
         for r in urecs:
             if r[1] is None:
                 continue
             group = [s for s in srecs if s[0] == r[0] and s[1] is not None and s[1] == r[1]]
-            ctx.check(len(group) >= 1, "unified() invented a record (kind/identifier not in the source)")
+            ctx.check(len(group) >= 1, tag + "unified() invented a record (kind/identifier not in the source)")
             for ra in r[2]:
                 ctx.check(any(S.attr_eq(ra, sa) for s in group for sa in s[2]),
                           "merged record holds an attribute value none of its sources has")
@@ -131,11 +151,13 @@ def unify(ctx):
         for p in positions:
             if p not in seen:
                 seen.append(p)
-        ctx.check(seen == sorted(seen), "unified() does not keep first-occurrence order")
+        ctx.check(seen == sorted(seen), tag + "unified() does not keep first-occurrence order")
     # idempotent
     uu = u.unified()
-    ctx.check(S.doc_eq(S.doc_desc(uu), res), "unified() is not idempotent")
-    ctx.observe("result~", res)
+    ctx.check(S.doc_eq(S.doc_desc(uu), res), tag + "unified() is not idempotent")
+    ctx.observe(("result2~" if tag else "result~"), res)
+
+
 
 
 def _shards(tier):
@@ -150,6 +172,10 @@ def _shards(tier):
             out.append({"n_top": 0, "n_bundle": 2, "menu": "mid", "first": f})
         for f in MENU["small"]:
             out.append({"n_top": 1, "n_bundle": 2, "menu": "small", "first": f})
+        # two kinds x two records each under (possibly) coinciding identifiers, in both interleavings
+        for a, b in ((0, 2), (7, 9), (3, 4)):
+            out.append({"n_top": 0, "n_bundle": 0, "menu": "small", "pattern": [[a, "A"], [a, "A"], [b, "B"], [b, "B"]]})
+            out.append({"n_top": 0, "n_bundle": 0, "menu": "small", "pattern": [[a, "A"], [b, "B"], [a, "A"], [b, "B"]]})
     else:
         for f in MENU["full"]:
             out.append({"n_top": 2, "n_bundle": 0, "menu": "full", "first": f})
